@@ -1,15 +1,8 @@
 //! snowverif: property-based / fuzzing checks for the 20 listed properties of mcginty/snow.
 //! Usage: snowverif <Cnn> <quick|thorough> [--sub NAME] | snowverif <Cnn> --replay FILE
 
-#[macro_use]
-pub mod engine;
-pub mod instr;
-pub mod props;
-pub mod refcrypto;
-pub mod refnoise;
-pub mod sess;
-
-use engine::{Acc, Ctx, KnownFile, Tier};
+use snowverif::engine::{self, Acc, Ctx, KnownFile, Tier};
+use snowverif::{props, refcrypto, refnoise};
 use std::path::PathBuf;
 use std::sync::Mutex;
 use std::time::Instant;
